@@ -6,7 +6,7 @@ EXPLANATION = ("Decision tables extracted from MIR (every path of the function) 
                "tables transcribed from RFC 9114 / draft-ietf-webtrans-http3 (spec/h3.json): the four validate_frame tables, "
                "the eight read_frame(_async) error mappings, uniremote upgrade mappings, the control/QPACK stream runners, "
                "the worker's uni/bidi H3 handlers, every ErrorCode wire value, and the close code used by Worker::run."
-               ' Also (C12-R7): on the client side of the CONNECT stream the first non-GREASE response frame must be HEADERS, anything else is H3_FRAME_UNEXPECTED.')
+               ' Also (C12-R7): on the client side of the CONNECT stream the first non-GREASE response frame must be HEADERS, anything else is H3_FRAME_UNEXPECTED. C12-R8: the driver stream layer between the worker and those tables forwards read_frame / stop / kind to the proto typestate with the own halves of the stream, and the is_empty predicate of every critical-stream slot is `stream.is_none()` (the duplicate-stream rule is stated through it).')
 NOT_DECIDED = ["what quinn puts on the wire for close/stop", "frame sequences beyond the per-frame tables and the two state bits (first_frame_done, settings received)"]
 TRUSTED = ["rustc nightly MIR construction", "spec/h3.json transcription", "quinn close()/stop() semantics"]
 
@@ -33,3 +33,5 @@ def run(ctx):
     shared.worker_run_table(ctx, "C12-R6")
     ctx.rule("C12-R7", "typestate: compile-fail witnesses (no read_frame on local-uni, no write_frame on remote-uni, no frame I/O on the WT stage, upgrade(session_id) only on H3)")
     witness.run(ctx, "C12-R7", {"C12"})
+    ctx.rule("C12-R8", "the driver's stream layer hands the rules below it the real stream: read_frame / stop / kind forward to the proto typestate with the stream's own halves; the critical-stream slots' is_empty means `no stream stored`")
+    shared.driver_stream_layer(ctx, "C12-R8")
